@@ -45,6 +45,8 @@ def generate(rng, tier, index):
     spec["ops"] = [{"op": "none"}] + [{"op": "checkpointed", "n": n} for n in ns] + [{"op": "reversible", "k": k} for k in ks] + [{"op": "reversible_too_many", "k": T}]
     # the same forward pass taken *under differentiation* (jax.vjp runs the custom-VJP forward rule / the checkpointed loop's
     # differentiable path, which is what an optimisation loop executes): its primal outputs must equal the plain run too
+    # and once more from the arrays that strategy's run returned (a second optimisation iteration): same results again
+    spec["ops"] += [{"op": "reversible_rerun", "k": int(ks[int(rng.integers(0, len(ks)))])}, {"op": "checkpointed_rerun", "n": int(ns[int(rng.integers(0, len(ns)))])}]
     spec["ops"] += [{"op": "reversible_under_vjp", "k": int(ks[int(rng.integers(0, len(ks)))])}, {"op": "checkpointed_under_vjp", "n": int(ns[int(rng.integers(0, len(ns)))])}]
     return spec
 
@@ -123,7 +125,13 @@ def execute(spec):
                     raise
                 stats["fault_rejected_strategy"] = stats.get("fault_rejected_strategy", 0) + 1
             continue
-        if k.endswith("_under_vjp"):
+        if k.endswith("_rerun"):
+            gc = fdtdx.GradientConfig(method="checkpointed", num_checkpoints=int(op["n"])) if k.startswith("checkpointed") else cfg_rev.gradient_config.aset("num_checkpoints_reversible", int(op["k"]))
+            cfg = cfg_rev.aset("gradient_config", gc)
+            _, first = fdtdx.run_fdtd(scn.arrays, scn.objects, cfg, scn.key, show_progress=False)
+            t, arr = fdtdx.run_fdtd(first, scn.objects, cfg, scn.key, show_progress=False)
+            stats["sim_steps"] += T
+        elif k.endswith("_under_vjp"):
             gc = fdtdx.GradientConfig(method="checkpointed", num_checkpoints=int(op["n"])) if k.startswith("checkpointed") else cfg_rev.gradient_config.aset("num_checkpoints_reversible", int(op["k"]))
             cfg = cfg_rev.aset("gradient_config", gc)
 
